@@ -97,6 +97,45 @@ fn observe_pos(s: &str, off: usize, nchars: usize) -> Value {
     }
 }
 
+/// The span algebra at [a, b): start / end / as_str / split, Position::span, Span::get on every relative byte range
+/// (short texts only: in-range and out-of-range, on and off character boundaries) and merge_spans with a few
+/// other spans of the same text.
+fn span_algebra(s: &str, a: usize, b: usize) -> Value {
+    let r = guarded(|| {
+        let sp = Span::new(s, a, b).unwrap();
+        let (p, q) = sp.split();
+        let ps = Position::new(s, a).unwrap().span(&Position::new(s, b).unwrap());
+        let mut gets = vec![];
+        if s.len() <= 8 {
+            for i in 0..=(b - a + 1) {
+                for j in 0..=(b - a + 2) {
+                    let r = match sp.get(i..j) {
+                        Some(x) => json!([x.start(), x.end()]),
+                        None => json!([]),
+                    };
+                    gets.push(json!({"i": i, "j": j, "r": r}));
+                }
+            }
+        }
+        let mut merges = vec![];
+        for (c, d) in [(0, a), (b, s.len()), (0, 0), (s.len(), s.len()), (a, b), (0, s.len())] {
+            if let Some(other) = Span::new(s, c, d) {
+                let r = match pest::merge_spans(&sp, &other) {
+                    Some(x) => json!([x.start(), x.end()]),
+                    None => json!([]),
+                };
+                merges.push(json!({"c": c, "d": d, "r": r}));
+            }
+        }
+        json!({"start": sp.start(), "end": sp.end(), "str": cps(sp.as_str()), "split": [p.pos(), q.pos()],
+               "pspan": [ps.start(), ps.end()], "gets": gets, "merges": merges})
+    });
+    match r {
+        Ok(v) => v,
+        Err(m) => json!({"start": 0, "end": 0, "str": [], "split": [], "pspan": [], "gets": [], "merges": [], "panic": m}),
+    }
+}
+
 fn observe_span(s: &str, a: usize, b: usize) -> Value {
     let r = guarded(|| {
         let sp = Span::new(s, a, b).unwrap();
@@ -112,7 +151,7 @@ fn observe_span(s: &str, a: usize, b: usize) -> Value {
         Err(m) => json!({"a": a, "b": b, "panic": m}),
         Ok((ls, strs_ok, slc, elc, disp, eline)) => {
             let pd = parse_display(&disp);
-            json!({"a": a, "b": b, "panic": "", "lines": ls.iter().map(|(x, y)| json!([x, y])).collect::<Vec<_>>(),
+            json!({"a": a, "b": b, "panic": "", "alg": span_algebra(s, a, b), "lines": ls.iter().map(|(x, y)| json!([x, y])).collect::<Vec<_>>(),
                    "strs_ok": strs_ok, "sline": slc.0, "scol": slc.1, "eline": elc.0, "ecol": elc.1,
                    "err_text": cps(&eline),
                    "disp_ok": pd.is_some(), "disp_line": pd.as_ref().map(|x| x.0).unwrap_or(0),
